@@ -104,6 +104,15 @@ impl JobState {
         }
     }
 
+    fn is_aborted(&self) -> bool {
+        matches!(
+            self,
+            JobState::Always(JobStateAlways::FinishedAborted)
+                | JobState::Output(JobStateOutput::FinishedAborted)
+                | JobState::Ephemeral(JobStateEphemeral::FinishedAborted)
+        )
+    }
+
     fn is_upstream_failure(&self) -> bool {
         match self {
             JobState::Always(JobStateAlways::FinishedUpstreamFailure) => true,
@@ -206,6 +215,8 @@ pub struct NodeInfo {
     state: JobState,
     history_output: Option<String>,
     last_considered_in_gen: usize,
+    /// set once the job has been started in this evaluation
+    was_started: bool,
 }
 
 impl NodeInfo {
@@ -419,6 +430,7 @@ impl<T: PPGEvaluatorStrategy> PPGEvaluator<T> {
             state,
             history_output: None,
             last_considered_in_gen: 0,
+            was_started: false,
         };
         let idx = self.jobs.len() as NodeIndex;
         if self
@@ -808,7 +820,10 @@ impl<T: PPGEvaluatorStrategy> PPGEvaluator<T> {
                     job.state.is_failed()
                         || Self::_job_and_downstreams_are_ephemeral(&self.dag, &self.jobs, idx)
                 );
-                if !job.state.is_upstream_failure() {
+                // the same goes for a job the abort kept from ever being started:
+                // nothing about it has changed, so nothing about it is forgotten.
+                let never_started_abort = job.state.is_aborted() && !job.was_started;
+                if !job.state.is_upstream_failure() && !never_started_abort {
                     out.remove(&job.job_id);
                     out.remove(&input_name_key);
                 }
@@ -976,16 +991,19 @@ impl<T: PPGEvaluatorStrategy> PPGEvaluator<T> {
         let j = &mut self.jobs[*idx as usize];
         match j.state {
             JobState::Always(JobStateAlways::ReadyToRun) => {
+                j.was_started = true;
                 self.jobs_ready_to_run.remove(job_id);
                 set_node_state!(j, JobState::Always(JobStateAlways::Running), self.gen);
                 Ok(())
             }
             JobState::Output(JobStateOutput::ReadyToRun) => {
+                j.was_started = true;
                 self.jobs_ready_to_run.remove(job_id);
                 set_node_state!(j, JobState::Output(JobStateOutput::Running), self.gen);
                 Ok(())
             }
             JobState::Ephemeral(JobStateEphemeral::ReadyToRun(validation_status)) => {
+                j.was_started = true;
                 self.jobs_ready_to_run.remove(job_id);
                 set_node_state!(
                     j,
